@@ -71,7 +71,7 @@ def epPush (s : H) (att : TRef) (p : Nat × List String) : H :=
 /-- one round of the inner loop of `fdAttBody` -/
 def epStep (env : SEnv) (eps : List (Key × PyEpD)) (att : TRef) (s : H) (key : Key) : Except PyErr H :=
   match key.toInt? with
-  | none => .error .valueError
+  | none => .error (keyIntErr key)
   | some i =>
     match model_get_asset_by_id s env.model i with
     | none => .error .other
@@ -176,7 +176,7 @@ theorem inner_sim (env : SEnv) (eps : List (Key × PyEpD)) (att : TRef) (hnd : (
     rw [List.map_cons, loopE_cons]
     cases h1 : p.1.toInt? with
     | none =>
-      have e1 : epStep env eps att s p.1 = .error .valueError := by unfold epStep; rw [h1]
+      have e1 : epStep env eps att s p.1 = .error (keyIntErr p.1) := by unfold epStep; rw [h1]
       rw [e1]
       exact mapM_cons_none _ _ _ (by unfold resolveEp; rw [h1]; rfl)
     | some i =>
@@ -388,7 +388,7 @@ theorem attShape_parts (v : PyAttD) (h : attShape v = true) :
 theorem resolveEp_attStart (s : H) (nm : String) : resolveEp (abs (attStart s nm)) = resolveEp (abs s) := rfl
 
 theorem keyInt_some (k : Key) (i : Int) (h : k.toInt? = some i) : keyInt k = .ok i := by unfold keyInt; rw [h]
-theorem keyInt_none (k : Key) (h : k.toInt? = none) : keyInt k = .error .valueError := by unfold keyInt; rw [h]
+theorem keyInt_none (k : Key) (h : k.toInt? = none) : keyInt k = .error (keyIntErr k) := by unfold keyInt; rw [h]
 
 theorem fdAtt_ok (env : SEnv) (ai : List (Key × PyAttD)) (hnd : (ai.map (·.1)).Nodup)
     (k : Key) (v : PyAttD) (hkv : (k, v) ∈ ai) (hsh : attShape v = true) (hd : EntryIdsDistinct v)
